@@ -380,12 +380,12 @@ def rule_N(ck, lib):
         ck.floor("C03-N", "push sites in arguments()", len(sites), 2)
 
 
-def rule_A(ck):
+def rule_A(ck, A="C03-A", N="C03-N"):
     count = 400 if ck.tier == "thorough" else 40
     fs, specs, failures = witness.build(ck, ck.seed, count)
     wit = fs.crate("wit.rlib")
     if fs.rc != 0 or wit is None:
-        ck.bad("C03-A", "witness:build", "witness interfaces do not build: %s" % [m for _, m in failures][:1])
+        ck.bad(A, "witness:build", "witness interfaces do not build: %s" % [m for _, m in failures][:1])
         return
     enums = ctx.enums_of(wit)
     n = 0
@@ -393,13 +393,13 @@ def rule_A(ck):
         it = witness.Iface(wit, spec)
         arms = witness.Arms(it, enums)
         if not arms.ok:
-            ck.bad("C03-A", "witness:%s:execute_command" % spec["mod"], "no generated dispatcher")
+            ck.bad(A, "witness:%s:execute_command" % spec["mod"], "no generated dispatcher")
             continue
         decls = witness.S.full_decls(spec)
         argsp = ("param", arms.params[2])
         if it.exec_fn is not None:
             for (nm, where, txt) in discarded_results(it.exec_fn["value"]):
-                ck.bad("C03-N", "witness:%s:discarded:%s" % (spec["mod"], nm), "generated dispatcher discards the result of `%s`" % txt, where)
+                ck.bad(N, "witness:%s:discarded:%s" % (spec["mod"], nm), "generated dispatcher discards the result of `%s`" % txt, where)
         for k, xs in sorted(arms.by_arm.items()):
             if k >= len(decls):
                 continue
@@ -454,6 +454,6 @@ def rule_A(ck):
                 probs.append("no path refuses a wrong parameter count")
             if not saw_call:
                 probs.append("no path calls the handler")
-            ck.judge(not probs, "C03-A", "witness:%s:arm%d" % (spec["mod"], k), "arity %d guarded; args.get(j).try_into()? in order before the call" % want_n,
+            ck.judge(not probs, A, "witness:%s:arm%d" % (spec["mod"], k), "arity %d guarded; args.get(j).try_into()? in order before the call" % want_n,
                      "; ".join(sorted(set(probs))[:3]))
-    ck.floor("C03-A", "generated dispatcher arms", n, 150)
+    ck.floor(A, "generated dispatcher arms", n, 150)
